@@ -20,7 +20,7 @@ class _spec_property_base:
     ALLOWED_ATTRS: Tuple[str, ...] = ()
 
     def __new__(cls, *args, **kwargs):
-        if not args:
+        if not args and kwargs.get("fget") is None:
 
             def decorator(func):
                 return cls(func, **kwargs)
